@@ -335,7 +335,7 @@ func removalWhileMemberDown(rec *mon.Recorder, c int) {
 	r := &run{rec: rec, c: c, desc: fmt.Sprintf("removal-while-member-down case=%d nodes=4", c)}
 	rec.Current(r.desc)
 	rng := rec.Rand("c20-down", c)
-	r.cl = sim.New(sim.Options{Nodes: 4, Dir: os.Getenv("VERIF_SCRATCH") + fmt.Sprintf("/c20d-%d", c), TickEvery: 5 * time.Millisecond, Seed: rec.Seed() + int64(c), NoJoinBarrier: true})
+	r.cl = sim.New(sim.Options{Nodes: 5, Dir: os.Getenv("VERIF_SCRATCH") + fmt.Sprintf("/c20d-%d", c), TickEvery: 5 * time.Millisecond, Seed: rec.Seed() + int64(c), NoJoinBarrier: true})
 	defer r.cl.Close()
 	if !r.startMembers(4) {
 		return
@@ -356,13 +356,24 @@ func removalWhileMemberDown(rec *mon.Recorder, c int) {
 	cl.Teardown(gone.Idx)
 	want := map[uint64]string{}
 	var up []*sim.Node
-	for _, n := range cl.Nodes {
+	for _, n := range cl.Nodes[:4] {
 		if n != gone {
 			want[n.Id] = n.Addr
 			if n != lag {
 				up = append(up, n)
 			}
 		}
+	}
+	if c%2 == 1 {
+		// another node joins while the member is still down: as many have joined as have left
+		if err := cl.StartNode(4); err != nil {
+			rec.Inconclusive(fmt.Sprintf("%s: join of node 5: %v", r.desc, err))
+			return
+		}
+		want[5] = cl.Nodes[4].Addr
+		up = append(up, cl.Nodes[4])
+		r.note("node 5 joins while the member is down")
+		lag.NoRejoin = true // it comes back with -join false: its own log and the leader's snapshot are all it has
 	}
 	if !r.converge(up, want, "after-removal-with-a-member-down", bookSym) {
 		return
